@@ -116,6 +116,16 @@ def entity_escaper(ctx):
     ctx.require(ef, "__escape not found")
     e0 = ef[0]
     ok = P.has(e0, "$c = ord(%s.group())\ntry:\n    return self.codepoint2entity[$c]\nexcept $x:\n    return '&#x%%X;' %% $c" % pn(e0, 1)) or P.has(e0, "$c = ord(%s.group())\n...\nreturn self.codepoint2entity.get($c, '&#x%%X;' %% $c)" % pn(e0, 1))
+    if not ok:
+        # look-up first, numeric reference when there was nothing: the leaves of the returned value
+        lv_ = return_leaves(e0)
+        num_ = [(v_, g_) for v_, g_ in lv_ if P.matches(v_, "'&#x%X;' % $c")]
+        oth_ = [(v_, g_) for v_, g_ in lv_ if not P.matches(v_, "'&#x%X;' % $c")]
+        if len(num_) == 1 and len(oth_) == 1:
+            look_ = resolve_deep(e0, oth_[0][0], 3)
+            cp_ = resolve_deep(e0, num_[0][0].right, 3)
+            nm_ = src(oth_[0][0])
+            ok = P.matches(look_, "self.codepoint2entity.get($k)") and P.matches(cp_, "ord(%s.group())" % pn(e0, 1)) and (nm_ + " is None", True) in num_[0][1] and (nm_ + " is None", False) in oth_[0][1]
     ctx.check(ok, "escape.numeric-fallback", db.where(ef[0]), "__escape does not fall back to a numeric character reference for code points without a named entity", "named entity else &#x..;")
     # unescape: numeric decimal, hex and names of length >= 2
     pat = str_value(refs.value.args[0])
@@ -277,7 +287,7 @@ def decode_type(ctx):
         if t == x:
             kinds.append("str-passthrough")
             ctx.check((isstr, True) in g, "branch:str", db.where(v), "x returned unchanged outside the isinstance(x, str) branch", "str returned as is")
-        elif P.matches(v, "%s(str(%s))" % (fn.name, x)):
+        elif P.matches(v, "%s(str(%s))" % (fn.name, x)) or P.matches(v, "str(%s)" % x):
             kinds.append("other")
             ctx.check((isstr, False) in g and (isbytes, False) in g, "branch:other", db.where(v), "decode(str(x)) is not limited to objects that are neither str nor bytes", "other objects: decode(str(x))")
         elif P.matches(v, "str(%s, encoding=%s)" % (x, keyp)) or P.matches(v, "str(%s, %s)" % (x, keyp)) or P.matches(v, "%s.decode(%s)" % (x, keyp)):
